@@ -21,7 +21,8 @@ LEVEL = "exploration"
 RULE = ("a case is one Parallel call: N in {0,1,..around k*n_jobs*batch +-1..,200} x n_jobs x batch_size (1,2,3,7,'auto') x "
         "pre_dispatch (1,2,'n_jobs','2*n_jobs','1.5*n_jobs','all',3*n) x return_as (list, generator), on (a) the scripted "
         "backend with a seeded completion order, 1-3 callback threads, optional synchronous in-submit completion and "
-        "seeded pre-emption injection on joblib/parallel.py, or (b) a real backend with seeded task durations; "
+        "seeded pre-emption injection on joblib/parallel.py, or (b) a real backend with seeded task durations, or (c) two generator "
+        "calls on one object, the second made while the first generator still holds results of its completed run; "
         "distinct_nontrivial counts distinct (configuration, observed completion order) pairs with N >= 2")
 ASSUMPTIONS = [
     "tasks are pure and return a value that encodes their index; executions are counted by a log the tasks write themselves",
@@ -31,9 +32,9 @@ ASSUMPTIONS = [
 ]
 SHARDS = {"quick": 12, "thorough": 14}
 FLOORS = {"quick": {"scripted_calls": 1500, "real_backend_calls": 60, "injected_yields": 2000, "sync_in_submit_completions": 200,
-                    "distinct_completion_orders": 400},
+                    "distinct_completion_orders": 400, "second_calls_while_first_generator_holds_results": 40},
           "thorough": {"scripted_calls": 30000, "real_backend_calls": 900, "injected_yields": 40000,
-                       "sync_in_submit_completions": 4000, "distinct_completion_orders": 8000}}
+                       "sync_in_submit_completions": 4000, "distinct_completion_orders": 8000, "second_calls_while_first_generator_holds_results": 800}}
 
 _S = {}
 EXECLOG = []
@@ -62,6 +63,8 @@ def cases(tier, seed):
     m = 24 if tier == "quick" else 300
     for i in range(m):
         yield dict(kind="real", i=i)
+    for i in range(60 if tier == "quick" else 1200):
+        yield dict(kind="reuse", i=i)
 
 
 def gen_config(rng):
@@ -77,6 +80,16 @@ def gen_config(rng):
 def run_case(case, ctx):
     if case["kind"] == "real":
         return run_real(case, ctx)
+    if case["kind"] == "reuse":
+        # two generator calls on one object, the second made while the first generator still holds results of its
+        # (completed) run: each call must yield exactly its own values (scenario shared with C16)
+        from checks import c16
+        th = threading.Thread(target=c16.guard(c16.run_hold, ctx), args=(dict(case, i=100000 + case["i"]), ctx, "reuse:"), daemon=True)
+        th.start()
+        th.join(120)
+        if th.is_alive():
+            ctx.violation("nontermination:reuse", f"two-call scenario {case} still blocked after 120 s", case)
+        return
     for r in range(case["runs"]):
         if sum("nontermination" in v["key"] for v in ctx.violations) >= 3:
             return
